@@ -27,6 +27,7 @@ PROGRAMS = [
     "async def go(src):\n    return [v async for v in src]\nprint(area, volume, squares, p)\n",
     "count = 0\nfor item in basket:\n    count = count + 1\n    price = item + 1\nprint(count + 1, price * 2)\n",
     "a = 0\nprint(b)\nc = 5\nprint(a)\nfor i in data:\n    print(x)\n    print(y)\n    z = x\n",
+    "for report in reports:\n    if report[city] == 1:\n        pass\n_row_count = 0\ntotal = 0\ndef _helper_fn():\n    pass\ndef other():\n    pass\n",
     "total = 0\nseen = 0\ndef bump():\n    global total\n    total = total + 1\ndef both():\n    global total, seen\n    seen = 1\n"
     "raw = b'abc'\nz = 2j\ndef inner():\n    v = 1\n    def g():\n        nonlocal v\n        v = 2\n",
 ]
@@ -45,6 +46,7 @@ HAND_PATTERNS = [
     "_r_ = b''", "z = 2j", "z = 3j", "_z_ = 2j", "nonlocal v", "nonlocal v, w",
     "_x_ = 0\nprint(_x_)\n_y_ = 5", "_x_ = 0\nprint(_x_)", "for _i_ in __a__:\n    print(__b__)", "for _i_ in ___:\n    print(__b__)\n    _z_ = __b__",
     "print(__b__)\nprint(__c__)", "_p_ = ___\nprint(_q_)\n_r_ = ___\nprint(_p_)",
+    "_row_count = 0", "_tmp_val = ___", "def _helper_fn():\n    pass", "def _other_fn():\n    pass", "_x_y = 0",
     "for _w_ in ___:\n    print(_w_)", "for _w_ in ___:\n    print(len(_w_))", "for _w_ in ___:\n    print(_q_)",
 ]
 
@@ -91,19 +93,21 @@ def primitives(node):
     return out
 
 
-def check_match(m, pattern, program):
-    """-> list of (canon, detail) violations of the embedding witness"""
+def check_match(m, pattern, program, earlier=None):
+    """-> list of (canon, detail) violations of the embedding witness; `earlier` = the match this one continues
+    (use_previous): its pairings are carried along, only the new pattern's placeholders are judged for binding"""
     bad = []
     pairs = list(m.mappings.items())
+    carried = set(id(i) for i in earlier.mappings) if earlier is not None else set()
     partner = dict((id(i), s) for i, s in pairs)
     for ins, std in pairs:
         ia, sa = ins.astNode, std.astNode
         kind, text = placeholder(ia)
         tname = type(ia).__name__
         if tname == 'Name' and kind in ('wild', 'expr'):
-            if kind == 'expr':
+            if kind == 'expr' and id(ins) not in carried:
                 bound = m.exp_table.get(text)
-                if bound is None or bound is not std and sum(1 for i, _ in pairs if type(i.astNode).__name__ == 'Name' and i.astNode.id == text) == 1:
+                if bound is None or bound is not std and sum(1 for i, _ in pairs if id(i) not in carried and type(i.astNode).__name__ == 'Name' and i.astNode.id == text) == 1:
                     bad.append(('expr_placeholder_not_bound_to_its_subtree', '%s bound to %r, paired with line %s' % (
                         text, bound, getattr(sa, 'lineno', '?'))))
             continue
@@ -246,6 +250,7 @@ def derived_patterns(program, rnd, per_program):
 FOLLOW_UPS = [("for _item_ in ___:\n    pass", "_item_ + 1"), ("for _item_ in ___:\n    pass", "_item_ + ___"),
               ("_x_ = 0", "_x_ + 1"), ("_x_ = 0", "_x_ = _x_ + ___"), ("_x_ = ___", "print(_x_)"), ("_x_ = ___", "_x_ * 2"),
               ("def _f_(___):\n    pass", "_f_(___)"), ("_a_ = 2", "_a_ * _b_"), ("_a_ = 2", "_b_ * _a_ + ___"),
+              ("for _v_ in ___:\n    if __e__ == 1:\n        pass", "_arr_[__e__]"), ("if __e__ == 1:\n    pass", "___[__e__]"),
               ("_x_ = __e__", "__e__ + 1"), ("_x_ = __e__", "__e__ * 2"), ("print(__e__)", "__e__ + ___"), ("_x_ = __e__", "print(__e__)")]
 
 
@@ -309,7 +314,7 @@ def bounded(arg):
                     continue
                 for m2 in later or []:
                     follow_ups += 1
-                    for canon, detail in check_match(m2, second, program):
+                    for canon, detail in check_match(m2, second, program, earlier=m1):
                         if sum(1 for f in failures if f['id'] == canon) < 15:
                             failures.append({'id': canon, 'canon': canon, 'detail': detail + ' | follow-up pattern %r after %r | program %r' % (
                                 second, first, program)})
